@@ -31,7 +31,6 @@ type AstVec<T> = Vec<T>;
 #[verifier::external_body] struct Function { _p: u8 }
 #[verifier::external_body] struct ImportItem { _p: u8 }
 #[verifier::external_body] struct AstFor { _p: u8 }
-#[derive(Clone, Copy, PartialEq, Eq)] enum AstUnaryOp { Negate, Not }
 // a node with its span (parser/src/ast.rs)
 struct AstNode { node: Node, span: AstIndex }
 #[verifier::external_body] struct Ast { _p: u8 }
@@ -125,6 +124,14 @@ proof fn lemma_elif_stable(t0: Seq<Ev>, t1: Seq<Ev>, i: int, block: (AstIndex, A
 #[verifier::opaque] spec fn elif_jumps(t: Seq<Ev>, i: int, patched: Map<int, int>, end: int) -> bool {
     patched.contains_key(t[i + 2].pos()) && patched[t[i + 2].pos()] == t[i + 5].pos() + 2 && patched.contains_key(t[i + 5].pos()) && patched[t[i + 5].pos()] == end
 }
+// the instruction for an arithmetic operator
+spec fn arith_op_spec(op: AstBinaryOp) -> Option<Op> {
+    match op {
+        AstBinaryOp::Add => Some(Op::Add), AstBinaryOp::Subtract => Some(Op::Subtract), AstBinaryOp::Multiply => Some(Op::Multiply),
+        AstBinaryOp::Divide => Some(Op::Divide), AstBinaryOp::Remainder => Some(Op::Remainder), AstBinaryOp::Power => Some(Op::Power),
+        _ => None,
+    }
+}
 // ---- chained comparisons
 spec fn is_cmp(op: AstBinaryOp) -> bool { op is Less || op is LessOrEqual || op is Greater || op is GreaterOrEqual || op is Equal || op is NotEqual }
 // the instruction for a comparison operator
@@ -196,7 +203,7 @@ HELPERS = r"""
     // ---- emission helpers: PROVED in V-emit / K-emit in terms of the bytes; restated over the trace
     #[verifier::external_body]
     fn push_op(&mut self, op: Op, bytes: &[u8])
-        requires old(self).g@.spans.len() > 0,   // @span_stack_not_empty: push_op reads the current span (`expect("Empty span stack")`)
+        requires old(self).g@.spans.len() > 0,   // @span_stack_not_empty - push_op reads the current span (`expect("Empty span stack")`)
         ensures final(self).len() == old(self).len() + 1 + bytes@.len(), final(self).same_frame_state(old(self)), final(self).g@.patched == old(self).g@.patched,
             final(self).g@.trace == old(self).g@.trace.push(Ev::Op { at: old(self).len(), op, args: bytes@, span: Some(old(self).g@.spans.last()) }),
     { unimplemented!() }
@@ -218,7 +225,7 @@ HELPERS = r"""
     // V-emit update_offset_placeholder::lands_at_end_of_code
     #[verifier::external_body]
     fn update_offset_placeholder(&mut self, offset_ip: usize) -> (r: Result<()>)
-        requires offset_ip + 2 <= old(self).len(),   // @placeholder_inside_the_code: V-emit's precondition (the operand is written by index)
+        requires offset_ip + 2 <= old(self).len(),   // @placeholder_inside_the_code - V-emit's precondition (the operand is written by index)
         ensures final(self).len() == old(self).len(), final(self).same_frame_state(old(self)), final(self).g@.trace == old(self).g@.trace,
             r is Ok ==> final(self).g@.patched == old(self).g@.patched.insert(offset_ip as int, old(self).len()),
             r is Err ==> final(self).g@.patched == old(self).g@.patched,
@@ -365,6 +372,11 @@ HELPERS = r"""
             })
     }
 
+    // not under contract here (compile_chain, 375 lines, is behind both)
+    #[verifier::external_body]
+    fn compile_compound_assignment_op(&mut self, ast_op: AstBinaryOp, lhs: AstIndex, rhs: AstIndex, ctx: CompileNodeContext) -> (r: Result<CompileNodeOutput>) { unimplemented!() }
+    #[verifier::external_body]
+    fn compile_piped_call(&mut self, lhs: AstIndex, rhs: AstIndex, ctx: CompileNodeContext) -> (r: Result<CompileNodeOutput>) { unimplemented!() }
     // `self.error(ErrorKind::..)` (rule R5: the error value is not part of any property here)
     #[verifier::external_body]
     fn error_any<T>(&self) -> (r: Result<T>) ensures r is Err { unimplemented!() }
@@ -388,6 +400,7 @@ UNIT = Unit(
     items=[
         Type(OPF, "enum Op", derive="Clone, Copy, PartialEq, Eq"),
         Type(NODEF, "enum AstBinaryOp", derive="Clone, Copy, PartialEq, Eq"),
+        Type(NODEF, "enum AstUnaryOp", derive="Clone, Copy, PartialEq, Eq"),
         Type(NODEF, "struct AstIf"),
         Type(NODEF, "struct AstTry"),
         Type(NODEF, "struct AstCatch"),
@@ -460,7 +473,7 @@ UNIT = Unit(
            subst=[MAP_OR_ELSE], before=[TAIL],
            spec=r"""
     requires old(self).g@.spans.len() > 0,
-        op is And || op is Or,   // the `_ => unreachable!()` arm: compile_binary_op::logic_ops_only_get_and_or proves it for the caller
+        op is And || op is Or,   // @only_and_or_get_here - the `_ => unreachable!()` arm; compile_binary_op proves it for its call
     ensures
         r is Ok ==> final(self).g@.trace.len() == old(self).g@.trace.len() + 4 && prefix(old(self).g@.trace, final(self).g@.trace),
         // C01: the lhs is evaluated first, into the register the jump tests: `and` skips the rhs when the lhs is falsy,
@@ -807,7 +820,8 @@ let ghost mut rs: Seq<AstIndex> = seq![rhs0]; let ghost mut operands: Seq<AstInd
                 forall|q: int| 0 <= q < it2.index@ ==> self.g@.patched.contains_key(#[trigger] jump_offsets@[q] as int) && self.g@.patched[jump_offsets@[q] as int] == self.len(),
 """},
            spec=r"""
-    requires old(self).g@.spans.len() > 0, is_cmp(ast_op),
+    requires old(self).g@.spans.len() > 0,
+        is_cmp(ast_op),   // @only_comparison_operators_get_here - compile_binary_op proves it for its call
     ensures
         r is Ok ==> prefix(old(self).g@.trace, final(self).g@.trace),
         // C01: `a < b < c` is `(a < b) and (b < c)` with every operand evaluated once, left to right, and nothing
@@ -893,6 +907,54 @@ let ghost mut rs: Seq<AstIndex> = seq![rhs0]; let ghost mut operands: Seq<AstInd
         r matches Ok(out) ==> (ctx.result_register matches ResultRegister::Fixed(x) ==> out.register == Some(x) && !out.is_temporary),
         r matches Ok(out) ==> (ctx.result_register is Any ==> out.register is Some && out.is_temporary),
         r matches Ok(out) ==> (ctx.result_register is None ==> out.register is None),                                                     // @result_request_is_honoured
+"""),
+        # ---- C01: arithmetic and unary operators
+        Fn(F, "impl Compiler :: fn compile_arithmetic_op", props=P01,
+           subst=[ERR, ('"arithmetic".into()', 'err_str("arithmetic")', 1)], before=[TAIL],
+           spec=r"""
+    requires old(self).g@.spans.len() > 0,
+    ensures
+        arith_op_spec(op) is None ==> r is Err,                                                                                           // @not_an_arithmetic_operator_is_an_error
+        r is Ok ==> prefix(old(self).g@.trace, final(self).g@.trace),
+        // C01: lhs first, then rhs, each into a register of its own, then ONE instruction for the operator with the
+        // result register first; without a result request both operands are still evaluated (side effects), in order
+        r matches Ok(out) ==> ({
+            let t = final(self).g@.trace; let n = old(self).g@.trace.len() as int;
+            match out.register {
+                Some(x) => t.len() == n + 3 && t[n].is_node(lhs, ResultRegister::Any) && t[n + 1].is_node(rhs, ResultRegister::Any)
+                    && (arith_op_spec(op) matches Some(o) && t[n + 2].is_op(o, seq![x, t[n].reg(), t[n + 1].reg()])),
+                None => t.len() == n + 2 && t[n].is_node(lhs, ResultRegister::None) && t[n + 1].is_node(rhs, ResultRegister::None),
+            } }),                                                                                                                         // @lhs_then_rhs_then_the_operator
+        r matches Ok(out) ==> final(self).g@.regs == old(self).g@.regs + (if out.is_temporary { 1int } else { 0 }),                       // @temporaries_released
+        r is Ok ==> Self::frame_post(old(self), final(self), old(self).len()),                                                           // @earlier_code_and_enclosing_loops_untouched
+        r matches Ok(out) ==> (ctx.result_register matches ResultRegister::Fixed(x) ==> out.register == Some(x) && !out.is_temporary),
+        r matches Ok(out) ==> (ctx.result_register is Any ==> out.register is Some && out.is_temporary),
+        r matches Ok(out) ==> (ctx.result_register is None ==> out.register is None),                                                     // @result_request_is_honoured
+"""),
+        Fn(F, "impl<'a> CompileNodeContext<'a> :: fn compile_for_side_effects", props=P01, spec="    ensures r.ast == self.ast && r.result_register is None,\n"),
+        Fn(F, "impl Compiler :: fn compile_unary_op", props=P01, before=[TAIL],
+           spec=r"""
+    requires old(self).g@.spans.len() > 0,
+    ensures
+        r is Ok ==> prefix(old(self).g@.trace, final(self).g@.trace),
+        // C01: the operand into a register of its own, then Negate / Not into the result register
+        r matches Ok(out) ==> ({
+            let t = final(self).g@.trace; let n = old(self).g@.trace.len() as int;
+            t.len() == n + (if out.register is Some { 2int } else { 1 }) && t[n].is_node(value, ResultRegister::Any)
+                && (out.register matches Some(x) ==> t[n + 1].is_op(if op is Negate { Op::Negate } else { Op::Not }, seq![x, t[n].reg()])) }),   // @operand_then_the_operator
+        r matches Ok(out) ==> final(self).g@.regs == old(self).g@.regs + (if out.is_temporary { 1int } else { 0 }),                       // @temporaries_released
+        r is Ok ==> Self::frame_post(old(self), final(self), old(self).len()),                                                           // @earlier_code_and_enclosing_loops_untouched
+        r matches Ok(out) ==> (ctx.result_register matches ResultRegister::Fixed(x) ==> out.register == Some(x) && !out.is_temporary),
+        r matches Ok(out) ==> (ctx.result_register is Any ==> out.register is Some && out.is_temporary),
+        r matches Ok(out) ==> (ctx.result_register is None ==> out.register is None),                                                     // @result_request_is_honoured
+"""),
+        # the dispatch on the operator: discharges the preconditions of the functions above at their call site
+        Fn(F, "impl Compiler :: fn compile_binary_op", props=P01,
+           spec=r"""
+    requires old(self).g@.spans.len() > 0,
+    ensures
+        // arithmetic operators go to compile_arithmetic_op: what it guarantees is what a binary arithmetic node gets
+        (arith_op_spec(op) is Some && r is Ok) ==> prefix(old(self).g@.trace, final(self).g@.trace) && Self::frame_post(old(self), final(self), old(self).len()),   // @arithmetic_operators_dispatched
 """),
     ],
     epilogue=r"""
